@@ -29,6 +29,8 @@ UNIT = {
         {'file': P + 'token.rs', 'item': 'struct Token', 'attrs': 'drop'},
         {'file': P + 'token.rs', 'item': 'impl Token :: fn new', 'wrap': 'impl Token', 'fn': 'Token::new', 'attrs': 'drop', 'ret': 'r',
          'ensures': [('post', 'r.s_raw().s_pos() == pos && r.s_raw().s_file() == file')]},
+        {'file': P + 'token.rs', 'item': 'impl Token :: fn token_type', 'wrap': 'impl Token', 'fn': 'Token::token_type', 'attrs': 'drop', 'ret': 'r',
+         'ensures': [('post', '*r == self.s_type()')]},
         {'file': P + 'token.rs', 'item': 'impl DiagnosticLocation for Token :: fn range', 'wrap': 'impl Token', 'fn': 'Token::range', 'attrs': 'drop', 'ret': 'r',
          'ensures': [('post', 'r == self.s_raw().s_pos()')], 'rewrites': [(r'super::Range', 'Range', 1)]},
         {'file': P + 'token.rs', 'item': 'impl DiagnosticLocation for Token :: fn raw_text', 'wrap': 'impl Token', 'fn': 'Token::raw_text', 'attrs': 'drop', 'ret': 'r'},
@@ -48,7 +50,7 @@ UNIT = {
 PROPS = {it['fn']: ['C09'] for it in UNIT['items'] if 'fn' in it}
 TEXTS = {('get_any', 'eof'): 'at the end of the token stream: UnexpectedEOF if no statement has been started, otherwise an error located on the part of the statement read so far',
          ('get_any', 'stream'): 'hands out exactly the next item of the token stream (UnexpectedEOF at its end) and consumes exactly that item',
-         ('get_any', 'range'): 'on Ok(t): the first token handed out becomes the accumulated raw token, every later token keeps its start (and file) and moves its end '
+         ('get_any', 'range'): 'on Ok(t): a line terminator or comment leaves the accumulator alone; otherwise the first token handed out becomes the accumulated raw token, every later token keeps its start (and file) and moves its end '
                               'to the end of t - so an instruction\'s range runs from its first to its last token; on Err the accumulator is unchanged',
          'post': 'returns exactly what its specification says'}
 mk.make(UNIT, PROPS, TEXTS, search=['getany-search'])
